@@ -220,6 +220,19 @@ func main() {
 		b.WriteString("  (" + coqStr(m) + ", [" + joinStr(r.ImportCalls[m]) + "])" + sep + "\n")
 	}
 	b.WriteString("].\n\n")
+	pairs, perr := cov.GenesisPairs(*repo)
+	if perr != nil {
+		r.Errors = append(r.Errors, perr.Error())
+	}
+	b.WriteString("(* pairs of GenesisState fields of the same Go type: (app-state key, field, field, type) *)\nDefinition same_type_pairs : list (string * string * string * string) := [\n")
+	for i, p := range pairs {
+		sep := ";"
+		if i == len(pairs)-1 {
+			sep = ""
+		}
+		b.WriteString("  (" + coqStr(p.Key) + ", " + coqStr(p.A) + ", " + coqStr(p.B) + ", " + coqStr(p.Type) + ")" + sep + "\n")
+	}
+	b.WriteString("].\n\n")
 	fps := genesisFingerprints(*repo, r.Modules)
 	b.WriteString("(* sha256 (first 8 bytes) of the Init/ExportGenesis functions of each module *)\nDefinition genesis_fingerprints : list (string * string) := [\n")
 	for i, m := range r.Modules {
